@@ -272,6 +272,12 @@ class Intervals:
             if k == "use":
                 op = rv["op"]
                 st[key_i] = self.iv_operand(st, op)
+                if p == ():
+                    # a value of unknown provenance still lies in the range of the destination's integer type
+                    r = ty_range(self.body.local_ty(l))
+                    if r is not None and (st[key_i].lo < r.lo or st[key_i].hi > r.hi):
+                        m = st[key_i].meet(r)
+                        st[key_i] = r if m.empty() else m
                 st[key_l] = self.len_operand(st, op)
                 pl = flow.op_place(op)
                 if pl and pl[1] == ("0",) and p == ():
@@ -327,6 +333,11 @@ class Intervals:
                 res = Iv(0, b.hi - 1)
             elif base == "Shr" and a.lo >= 0:
                 res = Iv(0, a.hi)
+            elif base == "Shl" and a.lo >= 0 and a.hi != INF and b.lo >= 0 and b.hi < 64:
+                # bits shifted out only make the value smaller; the type-range clamp below covers wrapping
+                res = Iv(0 if b.hi != b.lo else a.lo << b.lo, a.hi << b.hi)
+            elif base in ("BitOr", "BitXor") and a.lo >= 0 and b.lo >= 0 and INF not in (a.hi, b.hi):
+                res = Iv(max(a.lo, b.lo) if base == "BitOr" else 0, (1 << max(int(a.hi).bit_length(), int(b.hi).bit_length())) - 1)
             if "WithOverflow" in op:
                 if res is not None:
                     st[key_i + ("0",)] = res
